@@ -197,3 +197,103 @@ def contains_call_attr(node, attrs):
         if isinstance(n, ast.Call) and isinstance(n.func, ast.Attribute) and n.func.attr in attrs:
             return True
     return False
+
+
+# ====================================================================== interval case analysis
+class SplitNeeded(Exception):
+    """The current integer region does not decide a comparison; split it after `point`
+    (left part ..point, right part point+1..)."""
+
+    def __init__(self, point):
+        Exception.__init__(self, point)
+        self.point = point
+
+
+NEG_INF, POS_INF = None, None   # regions use None for an open end
+
+
+def affine_in(sym, atom):
+    """(c1, c0) with sym == c1*atom + c0 (Fractions), or None if sym is not affine in `atom` alone."""
+    if not isinstance(sym, Sym) or not sym.is_poly():
+        return None
+    for a in sym.atoms():
+        if a != atom:
+            return None
+    try:
+        c0 = sym.subs({atom: Sym.const(0)})
+        c01 = sym.subs({atom: Sym.const(1)})
+        c02 = sym.subs({atom: Sym.const(2)})
+    except ZeroDivisionError:
+        return None
+    if not (c0.is_const() and c01.is_const() and c02.is_const()):
+        return None
+    c0v, c1v = c0.const_value(), c01.const_value() - c0.const_value()
+    if c02.const_value() != c0v + 2 * c1v:
+        return None
+    return c1v, c0v
+
+
+class Region:
+    """Integer interval lo..hi (None = unbounded on that side)."""
+
+    def __init__(self, lo, hi):
+        self.lo, self.hi = lo, hi
+
+    def __repr__(self):
+        return '[%s..%s]' % ('-inf' if self.lo is None else self.lo,
+                             '+inf' if self.hi is None else self.hi)
+
+    def empty(self):
+        return self.lo is not None and self.hi is not None and self.lo > self.hi
+
+    def split(self, point):
+        return Region(self.lo, point), Region(point + 1, self.hi)
+
+    def sign_range(self, c1, c0):
+        """(min value, max value) of c1*n+c0 over the region, with +-inf as float infinities."""
+        inf = float('inf')
+        ends = []
+        for x, side in ((self.lo, -1), (self.hi, 1)):
+            if x is None:
+                if c1 == 0:
+                    ends.append(c0)
+                else:
+                    ends.append(inf if (c1 > 0) == (side > 0) else -inf)
+            else:
+                ends.append(c1 * x + c0)
+        return min(ends), max(ends)
+
+    def decide_cmp(self, op, c1, c0):
+        """Truth of (c1*n + c0) op 0 over the region; raises SplitNeeded when not uniform."""
+        import math
+        lo_v, hi_v = self.sign_range(c1, c0)
+        holds = {'<': lambda v: v < 0, '<=': lambda v: v <= 0, '>': lambda v: v > 0,
+                 '>=': lambda v: v >= 0, '==': lambda v: v == 0, '!=': lambda v: v != 0}[op]
+        if c1 == 0:
+            return holds(c0)
+        if op in ('==', '!='):
+            if lo_v > 0 or hi_v < 0:
+                return op == '!='
+            root = -c0 / c1
+            if root.denominator != 1:
+                return op == '!='
+            r = int(root)
+            if self.lo == r and self.hi == r:
+                return op == '=='
+            if self.lo is not None and self.lo == r:
+                raise SplitNeeded(r)
+            raise SplitNeeded(r - 1)
+        a, b = holds(lo_v), holds(hi_v)
+        # c1*n+c0 is monotone: uniform iff the truth at both ends agrees
+        if a == b:
+            return a
+        root = -c0 / c1
+        fl = math.floor(root)
+        # truth changes between fl-1..fl+1; find the last integer with the truth of the left end
+        first = self.lo if self.lo is not None else fl - 2
+        left_truth = holds(c1 * first + c0) if self.lo is not None else holds(
+            -float('inf') if c1 > 0 else float('inf'))
+        for k in (fl - 1, fl, fl + 1):
+            if holds(c1 * k + c0) == left_truth and holds(c1 * (k + 1) + c0) != left_truth:
+                raise SplitNeeded(k)
+        raise AnalysisError('cannot split region %r for %s*n+%s %s 0' % (self, c1, c0, op))
